@@ -24,6 +24,7 @@ def dispatch (line : String) : String :=
     | "setitem" => cmdSetitem args
     | "reduce_val" => cmdReduceVal args
     | "gcast" => cmdGcast args
+    | "gnull" => cmdGnull args
     | "geval" => cmdGeval args
     | "iface" => cmdIface args
     | "roll" => cmdRoll args
